@@ -25,6 +25,7 @@ import Rs1090.Proofs.CprLocalSpec
 import Rs1090.Proofs.CprMetres
 import Rs1090.Proofs.CprFloat
 import Rs1090.Proofs.IeeeRound
+import Rs1090.Proofs.CprFloatAsm
 namespace Rs1090.Props.C05
 open Rs1090 Rs1090.Model.Cpr Rs1090.Spec.Cpr Rs1090.Proofs.Cpr
 
@@ -406,5 +407,97 @@ example :
   have f : ⌊(411041 / 49152 : ℚ)⌋ = 8 := by rw [Int.floor_eq_iff]; norm_num
   rw [e, f] at h
   exact ⟨h (by norm_num) (by norm_num), by rw [Proofs.IeeeRound.fl64_one_tenth]; norm_num⟩
+
+/-! ### the f64 argument, ASSEMBLED: the complete float-level local decoders against the exact model
+
+`Proofs/CprFloatAsm.lean`: `fWithRef fl full` (`fAirborneWithRef fl = fWithRef fl 360`, `fSurfaceWithRef fl =
+fWithRef fl 90`) — the whole function with `fl` after every operation and every comparison made on the f64 values:
+`d_lat`, `j = floor(0.5 + lat_ref / d_lat - cpr_lat)`, `lat`, the `[-90, 90]` test, `fabs(lat - lat_ref) > d_lat / 2.`,
+`ni` from `fNl` (the NL ladder against the rounded decimal literals), `d_lon`, `m`, `lon`,
+`fabs(lon - lon_ref) > d_lon / 2.`; `none` exactly where the Rust code returns `None`.  `LocalMargin full m latRef
+lonRef` (`= LocalMarginAt 10⁻⁹ …`, decidable): on the EXACT values, the two floor arguments stay `10⁻⁹` away from the
+integers, the latitude `10⁻⁹`° away from ±90 and from the 58 transition latitudes, `|lat − lat_ref|` and
+`|lon − lon_ref|` `10⁻⁹`° away from half a zone. -/
+
+open Rs1090.Proofs.CprFloat (fAirborneWithRef fSurfaceWithRef LocalMargin)
+
+/-- **The complete f64 computation of `airborne_position_with_reference` returns (almost) what the exact model
+    returns**: for every rounding function satisfying the standard model, every report with 17-bit fields, every
+    reference with `|lat_ref|, |lon_ref| ≤ 360`, under the margin hypothesis: `None` exactly when the rational
+    model returns `None`, otherwise positions within `10⁻¹¹` degrees on each axis. -/
+theorem airborne_with_reference_f64_close (fl : ℚ → ℚ) (R : Rounding fl) (m : Msg)
+    (hm : m.lat < 131072 ∧ m.lon < 131072) (latRef lonRef : ℚ) (hlr : |latRef| ≤ 360) (hor : |lonRef| ≤ 360)
+    (M : LocalMargin 360 m latRef lonRef) :
+    (fAirborneWithRef fl m latRef lonRef = none ↔ airborneWithRef m latRef lonRef = .ok none) ∧
+    ∀ q, fAirborneWithRef fl m latRef lonRef = some q → ∃ p : Pos, airborneWithRef m latRef lonRef = .ok (some p) ∧
+      |q.1 - p.lat| ≤ 1 / 10 ^ 11 ∧ |q.2 - p.lon| ≤ 1 / 10 ^ 11 :=
+  Proofs.CprFloat.airborne_with_reference_f64_close fl R m hm latRef lonRef hlr hor M
+
+/-- `airborne_with_reference_f64_close` for IEEE-754 binary64 round-to-nearest-even, unconditionally in the rounding -/
+theorem airborne_with_reference_ieee_close (m : Msg)
+    (hm : m.lat < 131072 ∧ m.lon < 131072) (latRef lonRef : ℚ) (hlr : |latRef| ≤ 360) (hor : |lonRef| ≤ 360)
+    (M : LocalMargin 360 m latRef lonRef) :
+    (fAirborneWithRef fl64 m latRef lonRef = none ↔ airborneWithRef m latRef lonRef = .ok none) ∧
+    ∀ q, fAirborneWithRef fl64 m latRef lonRef = some q → ∃ p : Pos, airborneWithRef m latRef lonRef = .ok (some p) ∧
+      |q.1 - p.lat| ≤ 1 / 10 ^ 11 ∧ |q.2 - p.lon| ≤ 1 / 10 ^ 11 :=
+  airborne_with_reference_f64_close fl64 rounding_ieee m hm latRef lonRef hlr hor M
+
+/-- the same for `surface_position_with_reference` -/
+theorem surface_with_reference_f64_close (fl : ℚ → ℚ) (R : Rounding fl) (m : Msg)
+    (hm : m.lat < 131072 ∧ m.lon < 131072) (latRef lonRef : ℚ) (hlr : |latRef| ≤ 360) (hor : |lonRef| ≤ 360)
+    (M : LocalMargin 90 m latRef lonRef) :
+    (fSurfaceWithRef fl m latRef lonRef = none ↔ surfaceWithRef m latRef lonRef = .ok none) ∧
+    ∀ q, fSurfaceWithRef fl m latRef lonRef = some q → ∃ p : Pos, surfaceWithRef m latRef lonRef = .ok (some p) ∧
+      |q.1 - p.lat| ≤ 1 / 10 ^ 11 ∧ |q.2 - p.lon| ≤ 1 / 10 ^ 11 :=
+  Proofs.CprFloat.surface_with_reference_f64_close fl R m hm latRef lonRef hlr hor M
+
+/-- … and for IEEE-754 binary64 -/
+theorem surface_with_reference_ieee_close (m : Msg)
+    (hm : m.lat < 131072 ∧ m.lon < 131072) (latRef lonRef : ℚ) (hlr : |latRef| ≤ 360) (hor : |lonRef| ≤ 360)
+    (M : LocalMargin 90 m latRef lonRef) :
+    (fSurfaceWithRef fl64 m latRef lonRef = none ↔ surfaceWithRef m latRef lonRef = .ok none) ∧
+    ∀ q, fSurfaceWithRef fl64 m latRef lonRef = some q → ∃ p : Pos, surfaceWithRef m latRef lonRef = .ok (some p) ∧
+      |q.1 - p.lat| ≤ 1 / 10 ^ 11 ∧ |q.2 - p.lon| ≤ 1 / 10 ^ 11 :=
+  surface_with_reference_f64_close fl64 rounding_ieee m hm latRef lonRef hlr hor M
+
+/-- **The IEEE-754 computation recovers the encoder's lattice point within `10⁻¹¹` degrees** (airborne, both
+    parities): under the hypotheses of `local_exact_airborne` and the margin of the report, the binary64 computation
+    returns a position within `10⁻¹¹`° per axis of `(Rlat, Rlon + 360 k)` — the point `local_within_10m_airborne`
+    places within 10 m of the true one (`10⁻¹¹`° ≤ 1.2 µm). -/
+theorem local_f64_recovers_airborne (i : Nat) (hi : i ≤ 1) (lat lon latRef lonRef : ℚ) (k : ℤ)
+    (hlat : -90 ≤ lat ∧ lat ≤ 90)
+    (h1 : |rlat 17 i lat - latRef| < dlat i / 2)
+    (h2 : |rlon 17 i (rlat 17 i lat) lon + 360 * k - lonRef| < dlon i (rlat 17 i lat) / 2)
+    (hlr : |latRef| ≤ 360) (hor : |lonRef| ≤ 360)
+    (M : LocalMargin 360 (report 17 i lat lon) latRef lonRef) :
+    ∃ q, fAirborneWithRef fl64 (report 17 i lat lon) latRef lonRef = some q ∧
+      |q.1 - rlat 17 i lat| ≤ 1 / 10 ^ 11 ∧
+      |q.2 - (rlon 17 i (rlat 17 i lat) lon + 360 * k)| ≤ 1 / 10 ^ 11 := by
+  have g := local_exact_airborne i hi lat lon latRef lonRef k hlat h1 h2
+  have c := airborne_with_reference_ieee_close (report 17 i lat lon)
+    (Proofs.CprFloat.report_fields_lt 17 i lat lon) latRef lonRef hlr hor M
+  obtain ⟨q, f, c1, c2⟩ := Proofs.CprFloat.Close.of_some c g
+  exact ⟨q, f, c1, c2⟩
+
+/-- non-vacuity: the repository's tests `decode_airporne_position_with_reference` (both frames against (49.0, 6.0))
+    and `decode_surface_position_with_reference` (against (51.99, 4.375)) satisfy the margin … -/
+example : LocalMargin 360 ⟨.even, 39848, 83951⟩ 49 6 ∧ LocalMargin 360 ⟨.odd, 21567, 81965⟩ 49 6 ∧
+    LocalMargin 90 ⟨.even, 115609, 116941⟩ (5199 / 100) (4375 / 1000) := by decide +kernel
+
+/-- … so the assembled theorem applies: the IEEE-754 computation of the second frame returns a position within
+    `10⁻¹¹`° of the exact model's (49.81755…, 6.08442…) -/
+example : ∃ q, fAirborneWithRef fl64 ⟨.odd, 21567, 81965⟩ 49 6 = some q ∧
+    |q.1 - 48156435 / 966656| ≤ 1 / 10 ^ 11 ∧ |q.2 - 3688425 / 606208| ≤ 1 / 10 ^ 11 := by
+  have c := airborne_with_reference_ieee_close ⟨.odd, 21567, 81965⟩ ⟨by decide, by decide⟩ 49 6
+    (by rw [abs_le]; constructor <;> norm_num) (by rw [abs_le]; constructor <;> norm_num) (by decide +kernel)
+  have e : airborneWithRef ⟨.odd, 21567, 81965⟩ 49 6
+      = .ok (some ⟨(48156435 : Rat) / 966656, (3688425 : Rat) / 606208⟩) := by decide +kernel
+  obtain ⟨q, f, c1, c2⟩ := Proofs.CprFloat.Close.of_some c e
+  exact ⟨q, f, c1, c2⟩
+
+/-- the margin is a real restriction: a reference exactly half a zone from the decoded latitude (the even report
+    with `lat_cpr = 0` against 51°: the floor argument is exactly 9, `lat = 54`, `|lat − lat_ref| = 3 = d_lat / 2`) does not
+    satisfy it -/
+example : ¬ LocalMargin 360 ⟨.even, 0, 0⟩ 51 0 := by decide +kernel
 
 end Rs1090.Props.C05
